@@ -186,14 +186,17 @@ impl Wait for BlockingWait {
             }
         }
 
+        vpoint!(BW_BEFORE_LOCK);
         loop {
             {
                 let mut lock = self.lock.lock();
                 if check(seq, w_pos, wc) {
                     return;
                 }
+                vpoint!(BW_CHECKED_FALSE);
                 self.condvar.wait(&mut lock);
             }
+            vpoint!(BW_WOKEN);
             if check(seq, w_pos, wc) {
                 return;
             }
@@ -205,7 +208,9 @@ impl Wait for BlockingWait {
         // since they would require a store-load fence or an rmw operation.
         // on top of potentially doing the mutex and condition variable.
         // The fast path here is pretty fast anyways
+        vpoint!(BW_NOTIFY_BEFORE_LOCK);
         let _lock = self.lock.lock();
+        vpoint!(BW_NOTIFY_LOCKED);
         self.condvar.notify_all();
     }
 
